@@ -161,7 +161,7 @@ func cmdCheck(args []string) int {
 		seed, _ = strconv.Atoi(s)
 	}
 	t0 := time.Now()
-	timeout := 20
+	timeout := 30
 	if *tier == "thorough" {
 		timeout = 120
 	}
@@ -263,7 +263,7 @@ func cmdCheck(args []string) int {
 	for _, n := range names {
 		obls = append(obls, results[n].Obls...)
 	}
-	workers := runtime.NumCPU() / 2
+	workers := runtime.NumCPU() / 3
 	if workers < 2 {
 		workers = 2
 	}
@@ -332,15 +332,36 @@ func cmdCheck(args []string) int {
 	violations := 0
 	os.MkdirAll(*replayDir, 0o755)
 	printed := map[string]bool{}
+	// group failing obligations by clause: function / kind / label without case and return-point counters
+	groupOf := func(ob *Obligation) string {
+		n := stableName(ob.Name)
+		if i := strings.Index(n, ".case"); i >= 0 {
+			j := i + 5
+			for j < len(n) && n[j] >= '0' && n[j] <= '9' {
+				j++
+			}
+			n = n[:i] + n[j:]
+		}
+		return n
+	}
+	groups := map[string][]failure{}
+	var order []string
 	for _, f := range fails {
-		sn := stableName(f.ob.Name)
+		g := groupOf(f.ob)
+		if _, ok := groups[g]; !ok {
+			order = append(order, g)
+		}
+		groups[g] = append(groups[g], f)
+	}
+	for _, g := range order {
+		fs := groups[g]
 		// known finding?
 		matched := false
 		for _, kf := range kfs {
 			if kf.Fixed || kf.Prop != *prop {
 				continue
 			}
-			if strings.HasPrefix(sn, kf.Obligation) {
+			if strings.HasPrefix(g, kf.Obligation) {
 				matched = true
 				line := fmt.Sprintf("KNOWN-FINDING: property=%s %s", *prop, kf.What)
 				if !printed[line] {
@@ -354,24 +375,44 @@ func cmdCheck(args []string) int {
 			continue
 		}
 		violations++
-		h := sha1.Sum([]byte(f.ob.Name))
+		h := sha1.Sum([]byte(g))
 		rp := filepath.Join(*replayDir, fmt.Sprintf("%s-%x.json", *prop, h[:6]))
+		// try to replay the sat members of the group until one is confirmed on the real code (at most 3 attempts)
+		var best *ReplayResult
+		bestOb := fs[0].ob
+		tries := 0
+		for _, f := range fs {
+			if f.ob.Result.Status != "sat" || tries >= 3 {
+				continue
+			}
+			tries++
+			rep := w.Replay(f.ob, *repo)
+			if best == nil || (rep.Confirmed && !best.Confirmed) {
+				best, bestOb = rep, f.ob
+			}
+			if rep.Confirmed {
+				break
+			}
+		}
+		var members []string
+		for _, f := range fs {
+			members = append(members, f.ob.Name+": "+f.reason)
+		}
 		rec := map[string]any{
-			"property": *prop, "obligation": f.ob.Name, "kind": f.ob.Kind, "function": f.ob.Fn, "clause": f.ob.Text,
-			"position": f.ob.Pos, "status": f.reason, "solver": f.ob.Result.Solver, "tried": f.ob.Result.Tried,
-			"solver_output": truncate(f.ob.Result.Output, 20000),
+			"property": *prop, "obligation": g, "failing_instances": members, "kind": bestOb.Kind, "function": bestOb.Fn, "clause": bestOb.Text,
+			"position": bestOb.Pos, "status": bestOb.Result.Status, "solver": bestOb.Result.Solver, "tried": bestOb.Result.Tried,
+			"solver_output": truncate(bestOb.Result.Output, 4000),
 		}
 		suffix := " no-failing-input-found"
-		if f.ob.Result.Status == "sat" {
-			rep := w.Replay(f.ob, *repo)
-			rec["replay"] = rep
-			if rep != nil && rep.Confirmed {
+		if best != nil {
+			rec["replay"] = best
+			if best.Confirmed {
 				suffix = ""
 			}
 		}
 		data, _ := json.MarshalIndent(rec, "", " ")
 		os.WriteFile(rp, data, 0o644)
-		fmt.Printf("VIOLATION property=%s replay=%s obligation=%s%s\n", *prop, rp, f.ob.Name, suffix)
+		fmt.Printf("VIOLATION property=%s replay=%s obligation=%s%s\n", *prop, rp, g, suffix)
 	}
 	for _, fe := range funcErrs {
 		// a function that left the verified subset: all its obligations are undecided
@@ -478,10 +519,7 @@ type ReplayResult struct {
 	Inputs    map[string]string `json:"inputs,omitempty"`
 	Output    string            `json:"output,omitempty"`
 	TestFile  string            `json:"test_file,omitempty"`
-}
-
-func (w *World) Replay(ob *Obligation, repo string) *ReplayResult {
-	return &ReplayResult{Confirmed: false, Note: "replay not implemented for this obligation shape", Inputs: filterModel(ob.Result.Model)}
+	Package   string            `json:"package,omitempty"`
 }
 
 func filterModel(m map[string]string) map[string]string {
